@@ -244,25 +244,23 @@ Definition notfound_ok (i : cin) (rs : list ores) : bool :=
   | _, _ => true
   end.
 
-(* ---- the locator clauses: judged on the locator, the scripts (case input) and the observed results only;
-   the content the generator had in mind (b_content, b_consistent) plays no role.  "Data delivered as a
-   successful read has the MD5 and the size that appear in the locator." ---- *)
+(* ---- the locator clauses: judged on the locator and the observed results only; the content the generator had
+   in mind (b_content, b_consistent) plays no role.  "Data delivered as a successful read has the MD5 and the size
+   that appear in the locator."  Since fix F25 the reader returned by Get counts the bytes it delivers, so the
+   length clauses hold for every kind of answer (declared Content-Length or not). ---- *)
 
-(* every scripted 200 answer of the block declares a Content-Length.  (When a 200 answer comes without one,
-   getOrHead has nothing to compare the size hint with and HashCheckingReader checks the digest only: see
-   C03_chunked_wrong_size_delivered_refuted.  The length clauses below are therefore conditional on this
-   function of the case input.) *)
-Definition declared_resp (r : response) : bool :=
-  match r with Resp st None _ _ => negb (st =? 200)%N | _ => true end.
-Definition declared_only (bl : blockin) : bool := forallb (forallb declared_resp) (b_script bl).
+Definition hint_eqb (a b : option nat) : bool :=
+  match a, b with Some x, Some y => x =? y | None, None => true | _, _ => false end.
 
-(* the block cache is keyed by the hash alone: what a cached read of [bl] returns may have been fetched for any
-   block of the case with that hash.  The cached-read clauses apply when all of those use the same locator and
-   declare their lengths; locators that take the empty-block short cut are left to op_ok. *)
+(* the block cache is keyed by the hash alone: what a cached read through the locator of [bl] returns may have
+   been fetched through the locator of any block of the case with that hash, and then has THAT locator's size.
+   The cached-read clauses therefore apply when all blocks of the case with bl's hash carry bl's size hint and none
+   of them takes the empty-block short cut (which stores "" whatever the hint says, e.g. "d41d8...+05"). *)
 Definition loc_guard (i : cin) (bl : blockin) : bool :=
   negb (empty_block_loc (b_loc bl)) &&
   forallb (fun bl' => negb (String.eqb (loc_hash (b_loc bl')) (loc_hash (b_loc bl))) ||
-                      (String.eqb (b_loc bl') (b_loc bl) && declared_only bl')) (i_blocks i).
+                      (hint_eqb (size_hint (b_loc bl')) (size_hint (b_loc bl)) && negb (empty_block_loc (b_loc bl'))))
+          (i_blocks i).
 
 (* the reader was read to its end and the read reported success *)
 Definition full_read (m : rmode) (rerr : err) : bool :=
@@ -280,11 +278,10 @@ Definition get_loc_ok (H : string -> string) (bl : blockin) (m : rmode) (size : 
   (* (b) a complete successful read delivered bytes with the locator's digest *)
   (negb (full_read m rerr) || String.eqb (H bytes) (loc_hash loc)) &&
   (* (c) ... and with the locator's size *)
-  (negb (full_read m rerr && declared_only bl) || match size_hint loc with Some n => slen bytes =? n | None => true end) &&
+  (negb (full_read m rerr) || match size_hint loc with Some n => slen bytes =? n | None => true end) &&
   (* (d) a successful partial read confirmed by Close stays inside the locator's size *)
   match m, rerr, cerr with
-  | MReadFull k, ENil, ENil =>
-      negb (declared_only bl) || match size_hint loc with Some n => (k <=? n) && (slen bytes =? k) | None => true end
+  | MReadFull k, ENil, ENil => match size_hint loc with Some n => (k <=? n) && (slen bytes =? k) | None => true end
   | _, _, _ => true
   end.
 
